@@ -54,19 +54,22 @@ PROPS = {
     # id: dict(level, race build?, tiers: {tier: [stage, ...]})
     # a stage = dict(variant, runs, budget_s, workers)
     "C20": dict(level="exploration", race=False, tiers={
-        "quick": [dict(variant="", runs=24000, budget_s=60)],
-        "thorough": [dict(variant="grid", runs=2049 * 300, budget_s=1500), dict(variant="", runs=400000, budget_s=900)],
+        "quick": [dict(variant="", runs=24000, budget_s=60), dict(variant="", runs=4000, budget_s=15, race=True)],
+        "thorough": [dict(variant="grid", runs=2049 * 300, budget_s=1500), dict(variant="", runs=400000, budget_s=900), dict(variant="", runs=100000, budget_s=300, race=True)],
     }),
 }
 
 PROPS["C09"] = dict(level="exploration", race=False, tiers={
-    "quick": [dict(variant="", runs=6000, budget_s=75)],
-    "thorough": [dict(variant="", runs=400000, budget_s=2400), dict(variant="bigc", runs=60, budget_s=900, workers=1)],
+    # the "race" stages re-run part of the workload in a -race build: a data race between two
+    # MSM workers is a schedule on which the result can be wrong even if no interleaving at
+    # synchronisation-point granularity shows it
+    "quick": [dict(variant="", runs=6000, budget_s=60), dict(variant="", runs=1200, budget_s=35, race=True)],
+    "thorough": [dict(variant="", runs=400000, budget_s=2400), dict(variant="", runs=60000, budget_s=900, race=True), dict(variant="bigc", runs=60, budget_s=900, workers=1)],
 })
 
 PROPS["C19"] = dict(level="exploration", race=False, tiers={
-    "quick": [dict(variant="", runs=12000, budget_s=75)],
-    "thorough": [dict(variant="", runs=1500000, budget_s=2400)],
+    "quick": [dict(variant="", runs=12000, budget_s=60), dict(variant="", runs=3000, budget_s=20, race=True)],
+    "thorough": [dict(variant="", runs=1500000, budget_s=2400), dict(variant="", runs=300000, budget_s=600, race=True)],
 })
 
 PROPS["C10"] = dict(level="fault_enumeration", race=False, tiers={
@@ -74,14 +77,14 @@ PROPS["C10"] = dict(level="fault_enumeration", race=False, tiers={
     "thorough": [dict(variant="enum", runs=2 * 2 * 3 * 2 * 6 * 2400, budget_s=3000), dict(variant="", runs=4000000, budget_s=1500)],
 })
 
-PROPS["C01"] = dict(level="exploration", race=False, tiers={
-    "quick": [dict(variant="", runs=1600, budget_s=100)],
-    "thorough": [dict(variant="", runs=120000, budget_s=3000)],
+PROPS["C01"] = dict(level="exploration", race=False, race_stage_needs_config=True, tiers={
+    "quick": [dict(variant="", runs=1600, budget_s=80), dict(variant="", runs=160, budget_s=30, race=True)],
+    "thorough": [dict(variant="", runs=120000, budget_s=2700), dict(variant="", runs=8000, budget_s=600, race=True)],
 })
 
-PROPS["C03"] = dict(level="exploration", race=False, tiers={
-    "quick": [dict(variant="", runs=400, budget_s=100)],
-    "thorough": [dict(variant="", runs=20000, budget_s=3300)],
+PROPS["C03"] = dict(level="exploration", race=False, race_stage_needs_config=True, tiers={
+    "quick": [dict(variant="", runs=400, budget_s=75), dict(variant="", runs=48, budget_s=30, race=True)],
+    "thorough": [dict(variant="", runs=20000, budget_s=2700), dict(variant="", runs=2000, budget_s=600, race=True)],
 })
 
 PROPS["C02"] = dict(level="exploration", race=False, tiers={
@@ -317,7 +320,7 @@ def dies(built, pid, plan, scratch, race, seed, marker, attempts=2):
     return False, ""
 
 
-def shrink_fatal(built, pid, plan, scratch, race, seed, marker, budget_s=420):
+def shrink_fatal(built, pid, plan, scratch, race, seed, marker, budget_s=240):
     """Orchestrator-level reducer for violations that kill the worker process: every
     candidate is tried in a fresh process; kept if the process dies the same way."""
     t0 = time.time()
@@ -350,16 +353,29 @@ def check(pid, tier, seed):
         agg = dict(runs=0, nontrivial=0, steps=0, tasks=0, sim_ns=0, max_parked=0, keys=set(), faults={}, notes={}, shapes={}, site_orders={},
                    policies={}, numcpus={}, samples=[], violations=[], known_hits={}, infra=[], probes=set(), timed_out=0, stages=[])
         scale = float(os.environ.get("VERIF_BUDGET_SCALE", "1"))
+        built_race = None
         for si, st in enumerate(conf["tiers"][tier]):
             st = dict(st, budget_s=st["budget_s"] * scale)
+            srace = bool(st.get("race", race))
+            b = built
+            if srace and not race:
+                # a race-detector stage of a property whose main build is not a -race build
+                if built_race is None:
+                    rs = os.path.join(scratch, "racebuild")
+                    os.makedirs(rs, exist_ok=True)
+                    built_race = prepare(rs, race=True, mkconfig=conf.get("race_stage_needs_config", False))
+                    built_race["scratch"] = rs
+                b = built_race
+            sscratch = b.get("scratch", scratch)
+            sseed = seed + 7919 if (srace and not race) else seed  # the race stage draws different plans
             nw = min(WORKERS, st.get("workers", WORKERS))
             ws = []
             for k in range(nw):
-                job = dict(prop=pid, mode="explore", tier=tier, seed=seed, shard=k, nshards=nw, runs=st["runs"], budget_s=st["budget_s"], only_run=-1,
+                job = dict(prop=pid, mode="explore", tier=tier, seed=sseed, shard=k, nshards=nw, runs=st["runs"], budget_s=st["budget_s"], only_run=-1,
                            variant=st.get("variant", ""), samples=2 if k < 3 else 0, known=["%s:%s" % (pid, e["key"]) for e in known])
-                ws.append(spawn(built["bin"], job, scratch, "s%d-w%d" % (si, k), race=race, gomaxprocs=[1, 2, 4, 16][k % 4]))
+                ws.append(spawn(b["bin"], job, sscratch, "s%d-w%d" % (si, k), race=srace, gomaxprocs=[1, 2, 4, 16][k % 4]))
             wait_all(ws, st["budget_s"] * 3 + 600)
-            stage = dict(variant=st.get("variant", ""), planned_runs=st["runs"], runs=0, wall_s=0.0)
+            stage = dict(variant=st.get("variant", ""), race_build=srace, planned_runs=st["runs"], runs=0, wall_s=0.0)
             for w in ws:
                 out = read_out(w)
                 if out is None or w["rc"] != 0:
@@ -377,7 +393,7 @@ def check(pid, tier, seed):
                     raced = "DATA RACE" in tail or "VERIF-BLOCKED-FOREVER" in tail
                     reproduced, tail2, out2 = False, "", None
                     for attempt in range(3 if raced else 1):
-                        w2, out2 = one_shot(built["bin"], job, scratch, w["tag"] + "-rerun", 1200, race=race)
+                        w2, out2 = one_shot(b["bin"], job, sscratch, w["tag"] + "-rerun", 1200, race=srace)
                         tail2 = open(w2["log"]).read()[-6000:]
                         if out2 is None or w2["rc"] != 0:
                             reproduced = True
@@ -391,13 +407,16 @@ def check(pid, tier, seed):
                         cls = "data-race" if "DATA RACE" in rep else ("blocked-forever" if "VERIF-BLOCKED-FOREVER" in rep else "process-death")
                         if cls == "blocked-forever":
                             rep = rep[rep.index("VERIF-BLOCKED-FOREVER"):]
-                        gen = one_shot_gen(built, pid, tier, seed, cur, st.get("variant", ""), scratch, race)
-                        agg["violations"].append(dict(run=cur, **{"class": cls}, detail=(rep[:3500] if cls == "blocked-forever" else rep[-3500:]), plan=gen, fatal=True, replay_unstable=not reproduced))
+                        gen = one_shot_gen(built, pid, tier, seed, cur, st.get("variant", ""), sscratch, race)
+                        agg["violations"].append(dict(run=cur, **{"class": cls}, detail=(rep[:3500] if cls == "blocked-forever" else rep[-3500:]), plan=gen, fatal=True, replay_unstable=not reproduced, _b=b, _race=srace, _scratch=sscratch))
                     else:
                         agg["infra"].append("worker %s died (rc=%s) on run %s but the run alone passes:\n%s" % (w["tag"], w["rc"], cur, tail[-2000:]))
                         merge(agg, stage, out2)
                     continue
+                nv = len(agg["violations"])
                 merge(agg, stage, out)
+                for f in agg["violations"][nv:]:
+                    f["_b"], f["_race"], f["_scratch"] = b, srace, sscratch
             agg["stages"].append(stage)
             if agg["violations"] or agg["infra"]:
                 break
@@ -411,22 +430,23 @@ def check(pid, tier, seed):
                 log("INFRA: " + i)
             rc = 2
         for f in agg["violations"][:1]:
+            fb, frace, fscratch = f.pop("_b", built), f.pop("_race", race), f.pop("_scratch", scratch)
             if f.get("fatal"):
                 marker = {"data-race": "DATA RACE", "blocked-forever": "VERIF-BLOCKED-FOREVER"}.get(f["class"], "goroutine ")
-                small, det = shrink_fatal(built, pid, f["plan"], scratch, race, seed, marker)
+                small, det = shrink_fatal(fb, pid, f["plan"], fscratch, frace, seed, marker)
                 if det:
                     f = dict(f, plan=small, detail=(det[:3500] if f["class"] == "blocked-forever" else det[-3500:]), minimised=True)
                 rdir = os.path.join(REPLAY_DIR, pid)
                 os.makedirs(rdir, exist_ok=True)
                 h = hashlib.sha256(json.dumps(f["plan"], sort_keys=True).encode()).hexdigest()[:12]
                 path = os.path.join(rdir, "%s-%s.json" % (f["class"], h))
-                json.dump(dict(property=pid, violation_class=f["class"], detail=f["detail"], seed=seed, run=f["run"], minimised=f.get("minimised", False), replay_unstable=f.get("replay_unstable", False), race_build=race, plan=f["plan"],
+                json.dump(dict(property=pid, violation_class=f["class"], detail=f["detail"], seed=seed, run=f["run"], minimised=f.get("minimised", False), replay_unstable=f.get("replay_unstable", False), race_build=frace, plan=f["plan"],
                                note="race reports are replayed up to 5 times: the schedule is deterministic, the detector's bounded shadow history and pool hand-overs inside math/big are not"), open(path, "w"), indent=1)
                 log(f["detail"])
                 log("VIOLATION property=%s replay=%s" % (pid, path))
                 replays.append(path)
             else:
-                replays.append(minimise_and_report(pid, built, scratch, f, race, seed))
+                replays.append(minimise_and_report(pid, fb, fscratch, f, frace, seed))
             rc = 1
         write_evidence(pid, tier, seed, conf, agg, built, time.time() - t0, replays)
         return rc
@@ -516,7 +536,7 @@ def write_evidence(pid, tier, seed, conf, agg, built, wall, replays):
 def replay_cmd(pid, path):
     conf = PROPS[pid]
     body = json.load(open(path))
-    race = conf.get("race", False)
+    race = bool(body.get("race_build", conf.get("race", False)))
     scratch = os.path.join(SCRATCH_BASE, "verif-%s-replay-%d" % (pid, os.getpid()))
     shutil.rmtree(scratch, ignore_errors=True)
     os.makedirs(scratch)
